@@ -22,8 +22,14 @@ Cases ==
   \cup {[k |-> "u64", v |-> x, a |-> 0, b |-> 0, octets |-> EncInt(x)] : x \in {y \in Fam : InU64(y)}}
   \cup {[k |-> "bool", v |-> BZero, a |-> o, b |-> 0, octets |-> <<o>>] : o \in 0..255}
   \cup {[k |-> "enum", v |-> BOfInt(i), a |-> 0, b |-> 0, octets |-> EncInt(BOfInt(i))] : i \in 0..300}
+  \* the typed layer (BasicWriter / BasicReader): INTEGER, BOOLEAN, ENUMERATED with a = root items, b = all items
+  \* (an index >= b is not a value: the reader must refuse its encoding)
+  \cup {[k |-> "tint", v |-> x, a |-> 0, b |-> 0, octets |-> TLV(0, 2, EncInt(x))] : x \in {y \in Fam : InI64(y)}}
+  \cup {[k |-> "tbool", v |-> BZero, a |-> o, b |-> 0, octets |-> TLV(0, 1, EncBool(o # 0))] : o \in 0..1}
+  \cup UNION {{[k |-> "tenum", v |-> BOfInt(i), a |-> sn[1], b |-> sn[2], octets |-> TLV(0, 10, EncInt(BOfInt(i)))] : i \in 0..(sn[2] + 1)}
+              : sn \in {<<3, 3>>, <<2, 4>>}}
 
-Init == st = "seed" /\ c \in {"len", "tag", "i64", "u64", "bool", "enum"}
+Init == st = "seed" /\ c \in {"len", "tag", "i64", "u64", "bool", "enum", "tint", "tbool", "tenum"}
 Next == st = "seed" /\ st' = "case" /\ c' \in {x \in Cases : x.k = c}
 Spec == Init /\ [][Next]_<<st, c>>
 
@@ -37,6 +43,11 @@ RoundTrip ==
                        ELSE /\ Len(c.octets) = 1 + (c.octets[1] - 128) /\ DecU64(SubSeq(c.octets, 2, Len(c.octets))) = c.v
                             /\ c.octets[2] # 0)                                        \* minimal number of length octets
     /\ (c.k = "bool" => DecBool(c.a) = (c.a # 0))
+    /\ (c.k \in {"tint", "tenum", "tbool"} =>
+          \* identifier octet, short-form length, then exactly that many content octets
+          /\ c.octets[2] < 128 /\ Len(c.octets) = 2 + c.octets[2]
+          /\ (c.k = "tint" => DecI64(SubSeq(c.octets, 3, Len(c.octets))) = c.v /\ DecTag(c.octets[1]) = <<0, 2>>)
+          /\ (c.k = "tenum" => DecU64(SubSeq(c.octets, 3, Len(c.octets))) = c.v /\ DecTag(c.octets[1]) = <<0, 10>>))
 
 Emit == st = "case" => PrintT(<<"REPLAY", ToJson(c)>>)
 =============================================================================
